@@ -129,6 +129,30 @@ static RCP<const Set> make_set_intersection(const set_set &in)
     return *in.begin();
 }
 
+// Fallbacks of the number sets' set_union / set_intersection for operands
+// they have no rule for.  The free functions set_union() / set_intersection()
+// would call back into the same method (unbounded recursion), so let the
+// operand decide if it has rules of its own, else return the unevaluated set.
+static RCP<const Set> number_set_union_fallback(const RCP<const Set> &self,
+                                                const RCP<const Set> &o)
+{
+    if (is_a<UniversalSet>(*o) or is_a<Union>(*o) or is_a<Complement>(*o)) {
+        return o->set_union(self);
+    }
+    return make_set_union({self, o});
+}
+
+static RCP<const Set>
+number_set_intersection_fallback(const RCP<const Set> &self,
+                                 const RCP<const Set> &o)
+{
+    if (is_a<UniversalSet>(*o) or is_a<Union>(*o) or is_a<Intersection>(*o)
+        or is_a<Complement>(*o) or is_a<ConditionSet>(*o)) {
+        return o->set_intersection(self);
+    }
+    return make_set_intersection({self, o});
+}
+
 RCP<const Set> Interval::set_intersection(const RCP<const Set> &o) const
 {
     if (is_a<Interval>(*o)) {
@@ -312,8 +336,8 @@ RCP<const Set> Complexes::set_intersection(const RCP<const Set> &o) const
     } else if (is_a<FiniteSet>(*o)) {
         return (*o).set_intersection(rcp_from_this_cast<const Set>());
     } else {
-        return SymEngine::set_intersection(
-            {rcp_from_this_cast<const Set>(), o});
+        return number_set_intersection_fallback(
+            rcp_from_this_cast<const Set>(), o);
     }
 }
 
@@ -326,7 +350,7 @@ RCP<const Set> Complexes::set_union(const RCP<const Set> &o) const
     } else if (is_a<FiniteSet>(*o)) {
         return (*o).set_union(rcp_from_this_cast<const Set>());
     } else {
-        return SymEngine::set_union({rcp_from_this_cast<const Set>(), o});
+        return number_set_union_fallback(rcp_from_this_cast<const Set>(), o);
     }
 }
 
@@ -389,8 +413,8 @@ RCP<const Set> Reals::set_intersection(const RCP<const Set> &o) const
     } else if (is_a<FiniteSet>(*o) or is_a<Complexes>(*o)) {
         return (*o).set_intersection(rcp_from_this_cast<const Set>());
     } else {
-        return SymEngine::set_intersection(
-            {rcp_from_this_cast<const Set>(), o});
+        return number_set_intersection_fallback(
+            rcp_from_this_cast<const Set>(), o);
     }
 }
 
@@ -403,7 +427,7 @@ RCP<const Set> Reals::set_union(const RCP<const Set> &o) const
     } else if (is_a<FiniteSet>(*o) or is_a<Complexes>(*o)) {
         return (*o).set_union(rcp_from_this_cast<const Set>());
     } else {
-        return SymEngine::set_union({rcp_from_this_cast<const Set>(), o});
+        return number_set_union_fallback(rcp_from_this_cast<const Set>(), o);
     }
 }
 
@@ -472,8 +496,8 @@ RCP<const Set> Rationals::set_intersection(const RCP<const Set> &o) const
         return SymEngine::make_set_intersection(
             {rcp_from_this_cast<const Set>(), o});
     } else {
-        return SymEngine::set_intersection(
-            {rcp_from_this_cast<const Set>(), o});
+        return number_set_intersection_fallback(
+            rcp_from_this_cast<const Set>(), o);
     }
 }
 
@@ -488,7 +512,7 @@ RCP<const Set> Rationals::set_union(const RCP<const Set> &o) const
         // Interval::set_union and Union::set_union delegate to this function
         return SymEngine::make_set_union({rcp_from_this_cast<const Set>(), o});
     } else {
-        return SymEngine::set_union({rcp_from_this_cast<const Set>(), o});
+        return number_set_union_fallback(rcp_from_this_cast<const Set>(), o);
     }
 }
 
@@ -553,8 +577,8 @@ RCP<const Set> Integers::set_intersection(const RCP<const Set> &o) const
     } else if (is_a<FiniteSet>(*o) or is_a<Interval>(*o)) {
         return (*o).set_intersection(rcp_from_this_cast<const Set>());
     } else {
-        return SymEngine::set_intersection(
-            {rcp_from_this_cast<const Set>(), o});
+        return number_set_intersection_fallback(
+            rcp_from_this_cast<const Set>(), o);
     }
 }
 
@@ -641,8 +665,8 @@ RCP<const Set> Naturals::set_intersection(const RCP<const Set> &o) const
     } else if (is_a<FiniteSet>(*o) or is_a<Interval>(*o)) {
         return (*o).set_intersection(rcp_from_this_cast<const Set>());
     } else {
-        return SymEngine::set_intersection(
-            {rcp_from_this_cast<const Set>(), o});
+        return number_set_intersection_fallback(
+            rcp_from_this_cast<const Set>(), o);
     }
 }
 
@@ -727,8 +751,8 @@ RCP<const Set> Naturals0::set_intersection(const RCP<const Set> &o) const
     } else if (is_a<FiniteSet>(*o) or is_a<Interval>(*o)) {
         return (*o).set_intersection(rcp_from_this_cast<const Set>());
     } else {
-        return SymEngine::set_intersection(
-            {rcp_from_this_cast<const Set>(), o});
+        return number_set_intersection_fallback(
+            rcp_from_this_cast<const Set>(), o);
     }
 }
 
@@ -1642,7 +1666,15 @@ RCP<const Set> ImageSet::set_union(const RCP<const Set> &o) const
 
 RCP<const Set> ImageSet::set_intersection(const RCP<const Set> &o) const
 {
-    return SymEngine::set_intersection({rcp_from_this_cast<const Set>(), o});
+    if (is_a<EmptySet>(*o) or is_a<UniversalSet>(*o) or is_a<FiniteSet>(*o)
+        or is_a<Union>(*o) or is_a<Complement>(*o)) {
+        // handled by the global rules of set_intersection()
+        return SymEngine::set_intersection(
+            {rcp_from_this_cast<const Set>(), o});
+    }
+    // the pair-wise rules of set_intersection() would call back into this
+    // function
+    return make_set_intersection({rcp_from_this_cast<const Set>(), o});
 }
 
 RCP<const Set> ImageSet::set_complement(const RCP<const Set> &o) const
